@@ -1,0 +1,15 @@
+//go:build verif
+
+package note
+
+// Contracts for govc (contract-based deductive verification, see /verif/DESIGN.md).
+// This file is compiled only with -tags verif and contains no executable code.
+
+//@ define qual(n) ite(n == MajorDegree, 1, ite(n == MinorDegree, 2, ite(n == PerfectDegree, 3, ite(n == AugmentedDegree, 4, ite(n == DiminishedDegree, 5, ite(n == DoublyAugmentedDegree, 6, ite(n == DoublyDiminishedDegree, 7, 0)))))))
+
+//@ func Degree.Semitone returns (s, ok)
+//@   pure
+//@   ensures ok == spec.validInterval(d.Value, qual(d.Name))
+//@   ensures ok ==> s == spec.intervalSize(d.Value, qual(d.Name))
+//@   ensures !ok ==> s == 0
+//@   decreases d.Value
